@@ -472,6 +472,28 @@ impl<'ast> Visit<'ast> for AbortPass {
     }
 }
 
+// ---------------------------------------------------------------- N15 `?` on Result
+
+/// Opt-in per item (`"desugar_try": true`): `E?`  ->  `match E { Ok(v) => v, Err(e) => return Err(From::from(e)) }`,
+/// the language-defined meaning of `?` on a `Result` (vstd's spec of `from_residual` loses the converted error
+/// value when the error types differ).  Applied to an `Option`, the result does not type-check (exit 2).
+struct TryPass<'s> {
+    src: &'s str,
+    edits: Vec<Edit>,
+}
+impl<'ast, 's> Visit<'ast> for TryPass<'s> {
+    fn visit_expr_try(&mut self, t: &'ast syn::ExprTry) {
+        let inner = &self.src[range(t.expr.span())];
+        let r = range(t.span());
+        self.edits.push(Edit {
+            start: r.start,
+            end: r.end,
+            text: format!("(match {inner} {{ Ok(verif_ok) => verif_ok, Err(verif_err) => return Err(From::from(verif_err)) }})"),
+            rule: "N15",
+        });
+    }
+}
+
 // ---------------------------------------------------------------- N8 format!
 
 struct FormatPass<'s> {
@@ -539,7 +561,35 @@ pub fn normalize(
     // N2a
     {
         let f = parse(&text, "extraction")?;
-        let (froms, nfrom) = if skip("N10") { (String::new(), 0) } else { from_impls(&f, &text) };
+        let (mut froms, nfrom) = if skip("N10") { (String::new(), 0) } else { from_impls(&f, &text) };
+        // N17: a kept `derive(PartialEq)` is structural equality; say so to Verus
+        if keep_derives.iter().any(|d| d == "PartialEq") {
+            for it in &f.items {
+                let (ident, generics, attrs) = match it {
+                    syn::Item::Struct(x) => (&x.ident, &x.generics, &x.attrs),
+                    syn::Item::Enum(x) => (&x.ident, &x.generics, &x.attrs),
+                    _ => continue,
+                };
+                let derives_eq = attrs.iter().any(|a| {
+                    let mut hit = false;
+                    if a.path().is_ident("derive") {
+                        let _ = a.parse_nested_meta(|m| {
+                            if m.path.is_ident("PartialEq") {
+                                hit = true;
+                            }
+                            Ok(())
+                        });
+                    }
+                    hit
+                });
+                if derives_eq && generics.params.is_empty() {
+                    froms.push_str(&format!(
+                        "\nimpl vstd::std_specs::cmp::PartialEqSpecImpl for {ident} {{\n    open spec fn obeys_eq_spec() -> bool {{ true }}\n    open spec fn eq_spec(&self, other: &{ident}) -> bool {{ *self == *other }}\n}}\n"
+                    ));
+                    bump(fired, "N17.derived-eq-is-structural", 1);
+                }
+            }
+        }
         let mut p = AttrPass { src: &text, edits: vec![], keep_derives, err: None };
         p.visit_file(&f);
         if let Some(e) = p.err {
@@ -621,6 +671,19 @@ pub fn normalize(
         bump(fired, "N13", p.edits.len());
         text = apply_edits_all(&text, p.edits);
     }
+    // N15
+    if spec.desugar_try {
+        for _ in 0..16 {
+            let f = parse(&text, "N13")?;
+            let mut p = TryPass { src: &text, edits: vec![] };
+            p.visit_file(&f);
+            if p.edits.is_empty() {
+                break;
+            }
+            bump(fired, "N15", p.edits.len());
+            text = apply_edits(&text, p.edits);
+        }
+    }
     // N14
     if spec.abort_on_panic {
         let f = parse(&text, "N13")?;
@@ -674,6 +737,7 @@ pub struct Spliced {
 }
 
 struct BodyScan<'ast> {
+    guards: usize,
     loops: Vec<usize>,                       // byte offset of the body's `{`
     closures: Vec<&'ast syn::ExprClosure>,
     stmts: Vec<std::ops::Range<usize>>,
@@ -699,6 +763,19 @@ impl<'ast> Visit<'ast> for BodyScan<'ast> {
         self.stmts.push(range(s.span()));
         visit::visit_stmt(self, s);
     }
+    fn visit_arm(&mut self, a: &'ast syn::Arm) {
+        if a.guard.is_some() {
+            self.guards += 1;
+        }
+        visit::visit_arm(self, a);
+    }
+}
+
+fn has_mut_ref_param(sig: &syn::Signature) -> bool {
+    sig.inputs.iter().any(|a| match a {
+        syn::FnArg::Receiver(r) => r.mutability.is_some() && r.reference.is_some(),
+        syn::FnArg::Typed(t) => matches!(&*t.ty, syn::Type::Reference(r) if r.mutability.is_some()),
+    })
 }
 
 fn indent(s: &str, n: usize) -> String {
@@ -765,8 +842,13 @@ pub fn splice(
         let b = range(fr.block.brace_token.span.open()).start;
         edits.push(Edit { start: b, end: b, text: c, rule: "clauses" });
 
-        let mut scan = BodyScan { loops: vec![], closures: vec![], stmts: vec![] };
+        let mut scan = BodyScan { guards: 0, loops: vec![], closures: vec![], stmts: vec![] };
         scan.visit_block(fr.block);
+        if scan.guards > 0 && has_mut_ref_param(fr.sig) {
+            // measured (notes/spikes/verus_match_guard.rs): Verus 0.2026.09.13 loses `final(p)` of a `&mut` parameter when
+            // an arm with an `if` guard assigns through it -> every postcondition fails spuriously.  Undecided, never an alarm.
+            return Err(Lost("unsupported: match-arm `if` guard in a function with `&mut` parameters (Verus mis-resolves final(..) there)".into()));
+        }
         for (k, t) in &cl.loops {
             let Some(pos) = scan.loops.get(*k) else {
                 return Err(Lost(format!("anchor lost: @loop {k} but the function has {} loops", scan.loops.len())));
